@@ -123,13 +123,15 @@ def make_spec(case):
     cells = case["cells"]
     rgs = []
     for g in case["rgs"]:
-        dictionary = [physical(kind, k) for k in g["dict"]] if g["usedict"] else None
+        pad = g.get("pad", 0) if g["usedict"] else 0
+        # unused dictionary entries in front of the used ones (any values of the right type will do)
+        dictionary = ([physical(kind, j % 4) for j in range(pad)] + [physical(kind, k) for k in g["dict"]]) if g["usedict"] else None
         pages = []
         for p in g["pages"]:
             rows = cells[p["a"] - 1:p["b"]]
             nonnull = [k for k in rows if k >= 0]
             enc = {"PLAIN": "PLAIN", "DICT": "DICT", "RLE": "RLE", "DELTA": "DELTA_BINARY_PACKED"}[p["enc"]]
-            values = [g["dict"].index(k) for k in nonnull] if enc == "DICT" else [physical(kind, k) for k in nonnull]
+            values = [pad + g["dict"].index(k) for k in nonnull] if enc == "DICT" else [physical(kind, k) for k in nonnull]
             page = {"version": p["v"], "encoding": enc, "values": values,
                     "def_levels": [0 if k < 0 else 1 for k in rows] if case["optional"] else None,
                     "def_runs": [tuple(r) for r in p["def_runs"]] if (case["optional"] and p["def_runs"]) else None,
@@ -241,10 +243,14 @@ LATTICES = {
                                           RgSplits=1, PageSplits=2, Encodings="EncDict", DefRunStyles="RunsRle",
                                           IndexRunStyles="RunsRle", IndexWidthStyles="WidthMin", Codecs="CodecsAll",
                                           CompressedFlags="FlagsAll", Creators="CreatorOther"),
+    "G-dictionary-with-unused-entries": dict(Kinds="KindsDict", RowCounts="Rows4", NullPats="PatsFew", Optionals="BoolBoth",
+                                             RgSplits=1, PageSplits=1, Encodings="EncDict", DefRunStyles="RunsRle",
+                                             IndexRunStyles="RunsAll", IndexWidthStyles="WidthsMinPlus", Codecs="CodecNone",
+                                             CompressedFlags="FlagAbsent", Creators="CreatorsBoth", DictPads="PadsEdges"),
 }
 FULL = dict(Kinds="KindsAll", RowCounts="Rows6", NullPats="PatsAll", Optionals="BoolBoth", RgSplits=2, PageSplits=3,
             Encodings="EncAll", DefRunStyles="RunsAll", IndexRunStyles="RunsAll", IndexWidthStyles="WidthsAll",
-            Codecs="CodecsAll", CompressedFlags="FlagsAll", Creators="CreatorsBoth")
+            Codecs="CodecsAll", CompressedFlags="FlagsAll", Creators="CreatorsBoth", DictPads="PadsSmall")
 
 
 def export(work, consts, tag, simulate=None, seed=0):
@@ -252,6 +258,7 @@ def export(work, consts, tag, simulate=None, seed=0):
     c = {k: ("<- " + v if isinstance(v, str) else v) for k, v in consts.items()}
     c.setdefault("ValPats", "<- ValsPerm")
     c.setdefault("Versions", "<- V12")
+    c.setdefault("DictPads", "<- PadNone")
     T.write_cfg(cfg, spec="Spec", constants=c, invariants=["Valid", "Export"], check_deadlock=False)
     if simulate:
         res = T.run_tlc("FormatMC", cfg, work, timeout=1800, simulate="num=%d" % simulate, depth=40, seed=seed, workers=8)
@@ -317,9 +324,9 @@ def _run(ev, work, thorough, seed):
     for c in allcases:
         if c["n"] > 0:
             ev.nontrivial.add(json.dumps({k: c[k] for k in c if k != "lattice"}, sort_keys=True))
-    ev.rule = ("layouts = every terminal state of Format.tla in five exhaustive sub-lattices (dictionary index widths x run "
+    ev.rule = ("layouts = every terminal state of Format.tla in six exhaustive sub-lattices (dictionary index widths x run "
                "structures; definition-level run structures x null patterns; page/row-group splits with dictionary "
-               "fallback; type table; codec x v2 compression flag) plus seeded simulation of the full product; non-trivial "
+               "fallback; type table; codec x v2 compression flag; dictionaries with unused leading entries so that indices straddle 2^7, 2^8, 2^15, 2^16) plus seeded simulation of the full product; non-trivial "
                "= distinct layouts with at least one row")
     ev.exhaustive = False
     ev.sample({k: allcases[0][k] for k in allcases[0]})
